@@ -54,6 +54,16 @@ struct Harness {
 	threads: Vec<(&'static str, Vec<Op>)>,
 }
 
+/// blocks delivered one after the other once every thread of the harness has finished (before
+/// the final state is taken)
+fn post_of(name: &str) -> Vec<&'static str> {
+	if name.starts_with("e3:") {
+		vec!["y90", "y91", "y92"]
+	} else {
+		vec![]
+	}
+}
+
 fn harnesses(tier: Tier) -> Vec<Harness> {
 	let base5 = vec!["B(m1)", "B(m2)", "B(m3)", "B(m4)"];
 	let mut v = vec![
@@ -66,6 +76,9 @@ fn harnesses(tier: Tier) -> Vec<Harness> {
 		Harness { bounds: (1, 1), name: "r2:api-sweep+header+fork", universe: "forks", prelude: base5.clone(), threads: vec![("api", (API_N / 2..API_N).map(Op::Api).collect()), ("peer", vec![Op::H("m5"), Op::B("f5")])] },
 		// compaction against a block delivery (two threads; the three-thread version is e, thorough)
 		Harness { bounds: (1, 1), name: "e2:compact+block", universe: "long", prelude: vec!["*main"], threads: vec![("compactor", vec![Op::Compact]), ("peer", vec![Op::B("x91")])] },
+		// the block spends two sibling leaves far below the horizon; afterwards (sequentially) a
+		// heavier fork reorgs it out again: what compaction removed must not be needed then
+		Harness { bounds: (1, 1), name: "e3:compact+spending-block,then-reorg", universe: "long", prelude: vec!["*main"], threads: vec![("compactor", vec![Op::Compact]), ("peer", vec![Op::B("z91")])] },
 	];
 	if tier == Tier::Thorough {
 		v.push(Harness { bounds: (1, 1), name: "a2:reorg+reader", universe: "forks", prelude: vec!["B(m1)", "B(m2)", "B(m3)", "B(m4)", "B(m5)", "B(m6)", "B(f5)", "B(f6)"], threads: vec![("peer1", vec![Op::B("f7")]), ("reader", vec![Op::Read, Op::Unspent, Op::Read])] });
@@ -300,6 +313,10 @@ fn execute(h: &Harness, base: &Path, sc: &uni::Scratch, cx: &Arc<Ctx>, choices: 
 	let mut final_fp = None;
 	let mut validate = None;
 	if matches!(verdict, Verdict::Completed) {
+		for n in post_of(h.name) {
+			let i = cx.tree.blocks.iter().position(|b| b.name == n).expect("post block");
+			let _ = chain.process_block(cx.tree.blocks[i].block.clone(), Options::NONE);
+		}
 		let hashes: Vec<_> = cx.tree.blocks.iter().map(|b| b.block.hash()).collect();
 		let f = crate::fp::chain_fp(&chain, &hashes, &cx.tree.all_commits()).only(SER_KEYS);
 		final_fp = Some(f.digest());
@@ -341,6 +358,10 @@ fn sequential_fps(h: &Harness, base: &Path, sc: &uni::Scratch, cx: &Arc<Ctx>) ->
 		let log = Mutex::new(vec![]);
 		for (t, op) in &order {
 			run_op(&chain, cx, op, h.threads[*t].0, &log);
+		}
+		for n in post_of(h.name) {
+			let i = cx.tree.blocks.iter().position(|b| b.name == n).expect("post block");
+			let _ = chain.process_block(cx.tree.blocks[i].block.clone(), Options::NONE);
 		}
 		let hashes: Vec<_> = cx.tree.blocks.iter().map(|b| b.block.hash()).collect();
 		set.insert(crate::fp::chain_fp(&chain, &hashes, &cx.tree.all_commits()).only(SER_KEYS).digest());
